@@ -19,6 +19,7 @@ def describe(e, case):
 
 
 def run(ctx):
+    ctx.prove("BatchProofs")   # TLAPS: count/order, slot isolation, present-iff-servable for batches of ANY length
     ctx.model_check("Batch", ctx.pick("MC_Batch.cfg", "MC_Batch_thorough.cfg"), workers=8)
     beh = ctx.generate("Gen_Batch", workers=1, overrides={"MaxLen": ctx.pick(3, 4)})
     bpath = os.path.join(ctx.scratch, "batch-behaviours.json")
